@@ -101,7 +101,7 @@ func structCheck(typ zed.Type, body []byte, depth int) string {
 		for i := range es {
 			if !nulls[i] {
 				if why := structCheck(t.Type, es[i], depth+1); why != "" {
-					return why
+					return "set-element: " + why
 				}
 			}
 		}
@@ -162,6 +162,31 @@ func structCheck(typ zed.Type, body []byte, depth int) string {
 		u, ok := countedUint(body)
 		if !ok || u >= uint64(len(t.Symbols)) {
 			return "enum-selector: enum selector out of range"
+		}
+	default:
+		// fixed-width primitives (decoding a body of another length panics)
+		var ws []int
+		switch typ.ID() {
+		case zed.IDBool:
+			ws = []int{1}
+		case zed.IDFloat16:
+			ws = []int{2}
+		case zed.IDFloat32:
+			ws = []int{4}
+		case zed.IDFloat64:
+			ws = []int{8}
+		case zed.IDIP:
+			ws = []int{4, 16}
+		case zed.IDNet:
+			ws = []int{8, 32}
+		}
+		if ws != nil {
+			for _, w := range ws {
+				if len(body) == w {
+					return ""
+				}
+			}
+			return fmt.Sprintf("width: %d-byte body for a fixed-width primitive (id %d)", len(body), typ.ID())
 		}
 	}
 	return ""
